@@ -280,6 +280,18 @@ pub fn compile_expr(
                 }
             };
             match op {
+                ast::BinaryOperator::Gt
+                | ast::BinaryOperator::GtEq
+                | ast::BinaryOperator::Lt
+                | ast::BinaryOperator::LtEq => {
+                    check_comparable(&left_expr, &right_expr, true, expr)?
+                }
+                ast::BinaryOperator::Eq | ast::BinaryOperator::NotEq => {
+                    check_comparable(&left_expr, &right_expr, false, expr)?
+                }
+                _ => {}
+            }
+            match op {
                 ast::BinaryOperator::Gt => Ok(Expr::BinaryOperation {
                     left: left_expr,
                     operator: Operator::Gt,
@@ -367,10 +379,18 @@ pub fn compile_expr(
         }
 
         ast::Expr::UnaryOp { ref op, ref expr } => match op {
-            ast::UnaryOperator::Not => Ok(Expr::UnaryOperation {
-                expr: Box::new(compile_expr(expr, input, output)?),
-                operator: UnaryOperator::Not,
-            }),
+            ast::UnaryOperator::Not => {
+                let operand = compile_expr(expr, input, output)?;
+                match operand.get_type() {
+                    Ok(DataType::Bool) => Ok(Expr::UnaryOperation {
+                        expr: Box::new(operand),
+                        operator: UnaryOperator::Not,
+                    }),
+                    _ => Err(CompilationError::TypeError(
+                        "NOT requires a boolean expression".to_string(),
+                    )),
+                }
+            }
             operator => Err(CompilationError::UnsupportedOperator(format!(
                 "Unsupported unary operator \"{operator}\""
             ))),
@@ -409,6 +429,8 @@ pub fn compile_expr(
             if let Err(literal) = high_expr.get_type() {
                 high_expr = resolve_literal(literal, tested_type).map_err(|_| type_error())?;
             }
+            check_comparable(&tested_expr, &low_expr, true, expr)?;
+            check_comparable(&tested_expr, &high_expr, true, expr)?;
 
             Ok(Expr::Between {
                 expr: Box::new(tested_expr),
@@ -420,6 +442,55 @@ pub fn compile_expr(
         operator => Err(CompilationError::UnsupportedOperator(format!(
             "Unsupported operator \"{operator}\""
         ))),
+    }
+}
+
+fn is_numeric(data_type: &DataType) -> bool {
+    matches!(
+        data_type,
+        DataType::Int8
+            | DataType::Int16
+            | DataType::Int32
+            | DataType::Int64
+            | DataType::Uint8
+            | DataType::Uint16
+            | DataType::Uint32
+            | DataType::Uint64
+            | DataType::Float
+            | DataType::Double
+    )
+}
+
+/// A comparison is defined for two numbers and, if it is not an ordering
+/// comparison, also for two strings or two booleans.
+fn check_comparable(
+    left: &Expr,
+    right: &Expr,
+    ordered: bool,
+    expr: &ast::Expr,
+) -> Result<(), CompilationError> {
+    match (left.get_type(), right.get_type()) {
+        (Ok(left_type), Ok(right_type)) if is_numeric(&left_type) && is_numeric(&right_type) => {
+            Ok(())
+        }
+        (Ok(DataType::String), Ok(DataType::String)) | (Ok(DataType::Bool), Ok(DataType::Bool))
+            if !ordered =>
+        {
+            Ok(())
+        }
+        _ => Err(CompilationError::TypeError(format!(
+            "operands cannot be compared in expression \"{expr}\""
+        ))),
+    }
+}
+
+/// A selected expression needs a type: a number literal on its own has none.
+fn check_typed(expr: &Expr) -> Result<(), CompilationError> {
+    match expr.get_type() {
+        Ok(_) => Ok(()),
+        Err(_) => Err(CompilationError::TypeError(
+            "number literal without a type in SELECT statement".to_string(),
+        )),
     }
 }
 
@@ -512,8 +583,9 @@ fn compile_select_statement(
         None => {}
         Some(expr) => {
             let condition = compile_expr(expr, input, &mut query)?;
-            if let Ok(data_type) = condition.get_type() {
-                if data_type != DataType::Bool {
+            match condition.get_type() {
+                Ok(DataType::Bool) => {}
+                _ => {
                     return Err(CompilationError::TypeError(
                         "WHERE statement doesn't evaluate to a boolean expression".to_string(),
                     ));
@@ -528,10 +600,12 @@ fn compile_select_statement(
         match c {
             ast::SelectItem::UnnamedExpr(expr) => {
                 let expr = compile_expr(expr, input, &mut query)?;
+                check_typed(&expr)?;
                 query.projection.push(expr);
             }
             ast::SelectItem::ExprWithAlias { expr, alias } => {
                 let expr = compile_expr(expr, input, &mut query)?;
+                check_typed(&expr)?;
 
                 let name = alias.value.clone();
                 query.projection.push(Expr::Alias {
